@@ -3,6 +3,8 @@
   examples and the audit live here; helper lemmas are in `ALV.Lemmas.C09*`.
 -/
 import ALV.Lemmas.C09
+import ALV.Lemmas.C09Gain
+import ALV.Lemmas.C09Order
 import ALV.Common.Audit
 
 namespace ALV.Props.C09
@@ -70,7 +72,7 @@ theorem ola_core_nownd_eq_spec (size hop : Nat) (hh : hop ≤ size)
   by_cases h1 : k * hop ≤ n
   · by_cases h2 : n - k * hop < size
     · have : (List.replicate size (1 : K)).getD (n - k * hop) 0 = 1 := by
-        simp [List.getD_eq_getElem?_getD, List.getElem?_replicate, h2]
+        simp [List.getD_eq_getElem?_getD, h2]
       rw [if_pos h1, if_pos ⟨h1, h2⟩, this, one_mul, one_mul]
     · have hBk : (Bs.getD k []).length = size := by
         have : Bs.getD k [] = Bs[k] := by
@@ -90,6 +92,105 @@ theorem ola_length (g : K) (w : List K) (size hop : Nat) (Bs : List (List K)) :
   simp [olaSpec]
 
 end core
+
+
+section full
+variable {K : Type} [Field K] [LT K] [DecidableLT K] [DecidableEq K]
+
+/-- **C09.1** `overlap_add.list` as a whole: for every number of blocks (0 included), every
+`1 ≤ hop ≤ size` (given, or defaulted to `size`), every `size` (given, or read from the first
+block), every way of giving the window (`None`, a sequence, a callable — anything that resolves
+to `none` or to `size` items), normalisation on or off: exactly `m*hop + size - hop` samples,
+`out[n] = Σ_k g * w[n-k*hop] * B_k[n-k*hop]` with the gain `g` of the property, no exception. -/
+theorem ola_eq_spec (size hop : Nat) (hs : 0 < size) (h0 : 0 < hop) (hh : hop ≤ size)
+    (Bs : List (List K)) (hB : ∀ B ∈ Bs, B.length = size)
+    (size? hop? : Option Nat) (hsz : detectSize size? Bs = some size) (hhop : hop?.getD size = hop)
+    (wnd : WndArg K) (w? : Option (List K)) (hres : resolveWnd size wnd = .ok w?)
+    (hw : ∀ w, w? = some w → w.length = size) (normalize : Bool) :
+    (overlapAddList Bs size? hop? wnd normalize).out =
+        olaSpec (gainSpec size hop normalize w?) (wndSpec size w?) size hop Bs ∧
+    (overlapAddList Bs size? hop? wnd normalize).err = none := by
+  unfold overlapAddList
+  simp only [hsz, hhop, hres]
+  have hc : ¬ (hop = 0 ∨ ceilDiv size hop = 0) := by
+    intro h
+    rcases h with h | h
+    · omega
+    · unfold ceilDiv at h
+      have : 0 < (size + hop - 1) / hop := Nat.div_pos (by omega) h0
+      omega
+  cases normalize with
+  | false =>
+    simp only [normWnd, Bool.false_eq_true, if_false, gainSpec]
+    cases w? with
+    | none => exact ola_core_nownd_eq_spec size hop hh Bs hB
+    | some w => exact ola_core_eq_spec size hop hs hh w (hw w rfl) Bs hB
+  | true =>
+    simp only [normWnd, if_true, gainSpec]
+    cases w? with
+    | none =>
+      simp only [truthy, if_neg hc, wndSpec]
+      have h1 := ola_core_eq_spec size hop hs hh
+        (List.replicate size (1 / ((ceilDiv size hop : Nat) : K))) (by simp) Bs hB
+      rw [replicate_one_div, olaSpec_scale] at h1
+      rw [replicate_one_div]
+      exact h1
+    | some w =>
+      have hwl := hw w rfl
+      obtain ⟨x, xs, rfl⟩ : ∃ x xs, w = x :: xs := by
+        cases w with
+        | nil => simp at hwl; omega
+        | cons x xs => exact ⟨x, xs, rfl⟩
+      simp only [truthy, hopGain_eq hop h0 (x :: xs) (by simp), wndSpec]
+      by_cases hG : maxStrided (x :: xs) hop = 0
+      · simp only [hG, if_true]
+        exact ola_core_eq_spec size hop hs hh _ hwl Bs hB
+      · simp only [hG, if_false]
+        have h1 := ola_core_eq_spec size hop hs hh ((x :: xs).map (· / maxStrided (x :: xs) hop))
+          (by rw [List.length_map]; exact hwl) Bs hB
+        rw [olaSpec_scale] at h1
+        exact h1
+
+end full
+
+section ordered
+variable {K : Type} [Field K] [LinearOrder K] [IsStrictOrderedRing K]
+
+/-- **C09.2** the normalisation gain: for a non-empty window and `hop ≥ 1` the code's
+`max(map(sum, zip(*blocks(|w|, hop))))` exists and is the largest hop-strided sum of `|w|`:
+an upper bound of every `Σ_i |w[j + i*hop]|`, `j < hop`, attained by one of them.  (The window is
+divided by it unless it is 0; `ola_eq_spec` puts its reciprocal in front of the sum.) -/
+theorem gain_spec (hop : Nat) (h0 : 0 < hop) (w : List K) (hw : w ≠ []) :
+    ∃ G, hopGain hop w = some G ∧
+      (∀ j < hop, sumTo ((w.length + hop - 1) / hop) (fun i => |w.getD (j + i * hop) 0|) ≤ G) ∧
+      (∃ j < hop, sumTo ((w.length + hop - 1) / hop) (fun i => |w.getD (j + i * hop) 0|) = G) := by
+  refine ⟨maxStrided w hop, hopGain_eq hop h0 w hw, ?_, ?_⟩
+  · intro j hj
+    obtain ⟨h', rfl⟩ : ∃ h', hop = h' + 1 := ⟨hop - 1, by omega⟩
+    have := maxTo_ge (stridedAbsSum w (h' + 1)) h' j hj
+    have e : stridedAbsSum w (h' + 1) j =
+        sumTo ((w.length + (h' + 1) - 1) / (h' + 1)) (fun i => |w.getD (j + i * (h' + 1)) 0|) := by
+      simp only [stridedAbsSum, absS_eq_abs]
+    rw [← e]
+    exact this
+  · obtain ⟨h', rfl⟩ : ∃ h', hop = h' + 1 := ⟨hop - 1, by omega⟩
+    obtain ⟨j, hj, hf⟩ := maxTo_attained (stridedAbsSum w (h' + 1)) h'
+    refine ⟨j, hj, ?_⟩
+    have e : stridedAbsSum w (h' + 1) j =
+        sumTo ((w.length + (h' + 1) - 1) / (h' + 1)) (fun i => |w.getD (j + i * (h' + 1)) 0|) := by
+      simp only [stridedAbsSum, absS_eq_abs]
+    rw [← e]
+    exact hf
+
+omit [IsStrictOrderedRing K] in
+/-- the gain the specification uses is that maximum, inverted (1 when it is 0 or normalisation is off) -/
+theorem gainSpec_eq (size hop : Nat) (w : List K) :
+    gainSpec size hop true (some w) = (if maxStrided w hop = 0 then 1 else 1 / maxStrided w hop) ∧
+    gainSpec size hop false (some w) = 1 ∧
+    gainSpec size hop true (none : Option (List K)) = 1 / (((size + hop - 1) / hop : Nat) : K) := by
+  simp [gainSpec]
+
+end ordered
 
 /-- non-vacuity: two blocks of 3 with hop 2 and a non-trivial window -/
 example : (olaCore 3 2 (some [1, 2, 3]) [[1, 10, 100], [1000, 10000, 100000]] : Out Int).out
